@@ -36,6 +36,9 @@ class C01(core.Prop):
         'reference aggregates tied by cx.calc (C07 check); rexpy enters through the hypothesis RexSound (C03)',
     ]
 
+    def revive(self, case):
+        return cx.revive(case)
+
     def corpus(self):
         return [
             {'frame': {'nrows': 0, 'cols': [{'name': 's', 'fam': 'object-str', 'cells': []}]}},
